@@ -218,13 +218,20 @@ def blocking(prefix, family, caps=(1, 2), waits=("busy", "yield00", "block00")):
                 # (streams, values sent, producer drops?, consumer program)
                 ([1], 2, False, "count"), ([2], 2, False, "count"), ([1, 1], 1, False, "count"),
                 ([2], 2, True, "all"), ([1], 1, True, "all"), ([1], 1, True, "all2"), ([2], 1, True, "all2"),
+                # a second sender handle goes away while the consumers are blocked: the remaining sender falls
+                # back to the single-producer path and must still wake them
+                ([1], 2, False, "pop"), ([2], 2, False, "pop"),
             ]
             for (streams, nv, drops, cmode) in shapes:
                 if family == "mpmc" and len(streams) > 1:
                     continue
                 two = cmode == "all2"
-                t = Topo(family, 2 if two else 1, streams)
+                pop = cmode == "pop"
+                t = Topo(family, 2 if (two or pop) else 1, streams)
                 threads = [sends("tx", 101, nv, retry=True, drop=drops)]
+                if pop:
+                    threads.append([S("drop", "tx2")])
+                    cmode = "count"
                 if two:
                     # two senders that finish and drop at the same time
                     threads.append(sends("tx2", 201, nv, retry=True, drop=True))
@@ -239,6 +246,8 @@ def blocking(prefix, family, caps=(1, 2), waits=("busy", "yield00", "block00")):
                             n = per + (1 if i < nv - per * len(hs) else 0)
                             threads.append([S("brecv", h) for _ in range(n)] or [S("nop", h)])
                 dropped = ({"tx", "tx2"} if two else {"tx"}) if drops else set()
+                if pop:
+                    dropped = {"tx2"}
                 name = "%s-%s-c%d-%s-%d" % (prefix, family, cap, wait, k)
                 k += 1
                 out.append(scenario(name, family, False, cap, wait, t.setup, threads, final_phase(t, dropped)))
@@ -470,6 +479,18 @@ def futures_scn(prefix, family, caps=(1, 2), spins=(0, 0)):
             name = "%s-%sF-c%d-%d" % (prefix, family, cap, k)
             k += 1
             out.append(scenario(name, family, True, cap, "busy", t.setup, threads, fin, spins=list(spins)))
+        # the sender stays alive and idle after its last value: nothing but the wake-up of that value itself can
+        # get a parked consumer going again (a sender's drop would wake everybody and hide a lost wake-up)
+        for (nh, takes) in (((2, (1, 1)), (2, (2, 1))) if cap > 1 else ((2, (1, 1)),)):
+            t = Topo(family, 1, [nh])
+            threads = [sends("tx", 101, sum(takes), api="fsend")]
+            for h, n in zip(t.streams[0], takes):
+                threads.append([S("frecv", h) for _ in range(n)])
+            name = "%s-%sF-alive-c%d-%d" % (prefix, family, cap, k)
+            k += 1
+            out.append(scenario(name, family, True, cap, "busy", t.setup, threads,
+                                [S("drop", "tx"), S("recv", "rx")] + [S("drop", h) for h in t.streams[0]],
+                                spins=list(spins)))
         # one consumer of a shared stream takes a value and leaves while its sibling keeps polling
         t = Topo(family, 1, [2])
         threads = [sends("tx", 101, cap + 2, api="fsend", drop=True), [S("frecv_all", "rx")],
